@@ -101,7 +101,10 @@ impl Scenario for KeepAlive {
         if v.life[0] == Life::Live {
             acts.push(Act::Send(0, "PONG :LALAL".into()));
             acts.push(Act::Send(0, "PING tok".into()));
+            // other traffic: a capability request after registration (no CAP END is owed)
+            acts.push(Act::Send(0, "CAP REQ :multi-prefix".into()));
             if self.full {
+                acts.push(Act::Send(0, "CAP LS 302".into()));
                 acts.push(Act::Send(0, "PONG wrongtoken".into()));
                 acts.push(Act::Send(0, "LUSERS".into()));
             }
